@@ -57,10 +57,14 @@ def main():
             return 0
         if a.src:
             # self-test mode: report findings, never touch evidence
+            from vstat.core import load_known
+            known = {e["key"] for e in load_known().get("findings", []) if pid in e.get("properties", [])}
             n = 0
+            seen = set()
             for r in results:
                 for fd in r.findings:
-                    if pid in fd.props:
+                    if pid in fd.props and fd.key not in known and fd.key not in seen:
+                        seen.add(fd.key)
                         print("FINDING %s %s:%d %s" % (fd.key, fd.file, fd.line, fd.msg))
                         n += 1
             return 1 if n else 0
